@@ -284,7 +284,7 @@ func (this *DatasetManager) processSnapshot(data []byte) error {
 			return err
 		}
 		snapshotIds[id] = struct{}{}
-		if _, exists := this.datasets[id]; !exists {
+		if existing, exists := this.datasets[id]; !exists {
 			this.datasets[id], err = newDataset(id, *dataset, this.raftWalDB, this.raftTransport, this.clusterConn, this)
 			if err != nil {
 				return err
@@ -292,6 +292,8 @@ func (this *DatasetManager) processSnapshot(data []byte) error {
 			for _, partition := range this.datasets[id].partitions {
 				this.allocator.watch(partition)
 			}
+		} else if err := existing.restoreReplicaSets(dataset); err != nil {
+			return err
 		}
 	}
 	// Datasets that are not part of the snapshot were deleted before it was taken
